@@ -761,4 +761,71 @@ theorem run_separated (w : W) (ops : List Op) (h : ∀ op ∈ ops, op.isMerge = 
     refine ⟨sep.reverse, ?_, by simpa using ws, by simpa using ne⟩
     simp [W.output, e]
 
+/-! ### `;` insertion: darklua's tree recursion against the written tokens -/
+
+def lastT : List Tok → Option Tok
+  | [] => none
+  | [t] => some t
+  | _ :: t :: ts => lastT (t :: ts)
+
+/-- reference, on the written tokens: a following `(` continues the expression as a call iff
+the text ends with `)` or with a prefix-expression atom. -/
+def endsCallable (isPfx : Nat → Bool) (ts : List Tok) : Bool :=
+  match lastT ts with
+  | some .rp => true
+  | some (.atom k) => isPfx k
+  | _ => false
+
+theorem lastT_append_cons (a : List Tok) (t : Tok) (ts : List Tok) : lastT (a ++ t :: ts) = lastT (t :: ts) := by
+  induction a with
+  | nil => rfl
+  | cons x xs ih =>
+    cases xs with
+    | nil => simp [lastT]
+    | cons y ys => simpa [lastT] using ih
+
+theorem printE_ne_nil (e : E) : printE e ≠ [] := by
+  cases e <;> simp [printE]
+
+theorem lastT_append_printE (a : List Tok) (e : E) : lastT (a ++ printE e) = lastT (printE e) := by
+  cases h : printE e with
+  | nil => exact absurd h (printE_ne_nil e)
+  | cons t ts => exact lastT_append_cons a t ts
+
+theorem semicolon_partial_aux (isPfx : Nat → Bool) (e : E) (h : H3 isPfx e = true) :
+    endsCallable isPfx (printE e) = expressionEndsWithPrefix isPfx e := by
+  induction e with
+  | atom k => rfl
+  | negnum k =>
+    have : isPfx k = false := by simpa [H3] using h
+    simp [printE, endsCallable, lastT, expressionEndsWithPrefix, this]
+  | paren e _ =>
+    have : lastT (printE (.paren e)) = some .rp := by
+      simp only [printE]; exact lastT_append_cons _ _ _
+    simp only [endsCallable, this, expressionEndsWithPrefix]
+  | ifexp c a b _ _ ihb =>
+    have hb : H3 isPfx b = true := by simpa [H3] using h
+    have : lastT (printE (.ifexp c a b)) = lastT (printE b) := by
+      simp only [printE]; exact lastT_append_printE _ b
+    simp only [endsCallable, this, expressionEndsWithPrefix]
+    exact ihb hb
+  | cast e t _ =>
+    have : lastT (printE (.cast e t)) = some (.tname t) := by
+      simp only [printE]
+      have := lastT_append_cons ((if castNeedsParentheses e then [Tok.lp] ++ printE e ++ [Tok.rp] else printE e) ++ [Tok.dcolon]) (.tname t) []
+      simpa [lastT] using this
+    simp only [endsCallable, this, expressionEndsWithPrefix]
+  | un u x ih =>
+    have h' : unaryNeedsParentheses x = false ∧ H3 isPfx x = true := by simpa [H3] using h
+    have : lastT (printE (.un u x)) = lastT (printE x) := by
+      simp only [printE, h'.1, Bool.false_eq_true, if_false]; exact lastT_append_printE _ x
+    simp only [endsCallable, this, expressionEndsWithPrefix]
+    exact ih h'.2
+  | bin o l r _ ihr =>
+    have h' : rightNeedsParentheses o r = false ∧ H3 isPfx r = true := by simpa [H3] using h
+    have : lastT (printE (.bin o l r)) = lastT (printE r) := by
+      simp only [printE, h'.1, Bool.false_eq_true, if_false]; exact lastT_append_printE _ r
+    simp only [endsCallable, this, expressionEndsWithPrefix]
+    exact ihr h'.2
+
 end DarkluaModel.C02
